@@ -41,6 +41,10 @@ class C09(CFGProp):
     def layers(self, tier, seed):
         extra = [Layer("shared-suffix pairs CFG(2,2,4,2)", shared_suffix_cases,
                        policies=["natural@plain", "1@plain", "2@plain"])]
+        extra.append(Layer("three productions of length 3 over one variable", G.long_triples, rep=G.is_rep,
+                           policies=["natural@plain", "1@plain", "2@plain"]))
+        extra.append(Layer("suffix pair + one short production", G.suffix_triples,
+                           policies=["natural@plain", "1@plain"]))
         extra.append(Layer("long production + used C#CNF#1, C#CNF#2", cnf2_shapes, policies=["natural@cnf2", "1@cnf2"]))
         return cfg_layers(tier, adversarial=("cnf",), extra_quick=extra, extra_thorough=extra)
 
